@@ -238,6 +238,40 @@ def rules(chk, db, want, prefix=''):
                         why.append('entries are not all written after hash and count')
                 chk.decide(not why, R('TW'), where, 'Encoding<%s>::WritePayload: %s' % (short, '; '.join(why) if why else 'hash, count of non-empty entries, entries'),
                            function=ir.fn_label(f))
+                # Size(table) = prefix + Size(the hash the writer emits) + Size(the count the writer emits) + one Size per declared entry
+                written_hash = None
+                if full is not None:
+                    v = [it for it in encrules.io_view(full) if it[0] == 'ENC']
+                    if len(v) == 2 and symx.as_poly(v[0][3][0]).is_const():
+                        written_hash = symx.as_poly(v[0][3][0]).const_value()
+                for g in pick(fns, 'Size', lambda h: len(h['params']) == 1 and entry_info(h['params'][0]['t']) is None)[:1]:
+                    gw = facts.site(g) + ' <%s>' % short
+                    try:
+                        gp = symx.paths_of(db, g, inline_helpers(g))
+                    except symx.Unsupported as e:
+                        chk.unanalysable(R('TW'), gw, str(e))
+                        continue
+                    why = []
+                    if len(gp) != 1:
+                        why.append('%d paths' % len(gp))
+                    else:
+                        sp = gp[0]
+                        sz = [e for e in sp.events if e.kind == 'call' and e.name == 'Size']
+                        scal = [e for e in sz if encrules.enc_type(e) == 'unsigned long' and len(e.args) == 1]
+                        consts = [symx.as_poly(e.args[0]).const_value() for e in scal if symx.as_poly(e.args[0]).is_const()]
+                        counts = [e for e in scal if not symx.as_poly(e.args[0]).is_const()]
+                        per_entry = [e for e in sz if e not in scal]
+                        if written_hash is None or consts != [written_hash]:
+                            why.append('hash field sized for %s, the writer emits %s' % (consts, written_hash))
+                        if len(counts) != 1 or repr(counts[0].args[0]).count('operator bool()') != len(decl):
+                            why.append('count field not sized for the number of non-empty entries over all %d declared entries' % len(decl))
+                        if len(per_entry) != len(decl):
+                            why.append('%d entry sizes for %d declared entries' % (len(per_entry), len(decl)))
+                        r = symx.as_poly(sp.ret)
+                        if len(r.t) != len(sz) + 1 or any(c != 1 for c in r.t.values()) or 'BaseEncodingSize' not in repr(r):
+                            why.append('size is %s: not prefix + hash + count + entries' % repr(r)[:160])
+                    chk.decide(not why, R('TW'), gw + ' size', 'Encoding<%s>::Size: %s' % (short, '; '.join(why) if why else
+                               'prefix + Size(hash) + Size(active count) + every entry'), function=ir.fn_label(g))
             # entry order
             for f in pick(fns, 'WriteEntries', lambda g: len(g['params']) == 3)[:0]:
                 pass
